@@ -14,6 +14,7 @@ use crate::parser::model_transformer::TransformError;
 use crate::parser::model_transformer::TransformerContext;
 use crate::parser::recursive_set_resolver::recursive_set_resolver;
 use crate::primitives::ApplyOp;
+use crate::primitives::OperatorError;
 use crate::primitives::IterableKind;
 use crate::primitives::{Graph, GraphEdge, GraphNode};
 use crate::primitives::{Primitive, PrimitiveKind};
@@ -743,6 +744,12 @@ impl PreExp {
                 let value = v.as_primitive(context, fn_context)?;
                 match value.apply_unary_op(**op) {
                     Ok(value) => Ok(value),
+                    // a failure of the VALUE, not of its type: the operator applies to this kind
+                    Err(OperatorError::Overflow { .. }) => Err(TransformError::Other(format!(
+                        "integer overflow in \"{}({})\"",
+                        **op, value
+                    ))
+                    .add_span(op.span())),
                     Err(_) => Err(TransformError::from_wrong_unop(
                         **op,
                         value.get_type(),
@@ -755,6 +762,17 @@ impl PreExp {
                 let rhs = rhs.as_primitive(context, fn_context)?;
                 match lhs.apply_binary_op(**op, &rhs) {
                     Ok(value) => Ok(value),
+                    // failures of the VALUES, not of their types: the operator applies to these kinds
+                    Err(OperatorError::DivisionByZero) => Err(TransformError::Other(format!(
+                        "division by zero in \"{} {} {}\"",
+                        lhs, **op, rhs
+                    ))
+                    .add_span(op.span())),
+                    Err(OperatorError::Overflow { .. }) => Err(TransformError::Other(format!(
+                        "integer overflow in \"{} {} {}\"",
+                        lhs, **op, rhs
+                    ))
+                    .add_span(op.span())),
                     Err(_) => Err(TransformError::from_wrong_binop(
                         **op,
                         lhs.get_type(),
